@@ -232,7 +232,49 @@ func vC18HashSize(req string) string {
 	return parts[0] + "+" + parts[1]
 }
 
-// got is sent with each +A hint of a block locator turned into +R<id>-, nothing else changed
+// a well-formed block locator: 32 hex digits, +size, then hints +<capital letter>...
+func vC18WellFormedLocator(t string) bool {
+	if !vC18IsHex32(t) || len(t) < 34 || t[32] != '+' {
+		return false
+	}
+	parts := strings.Split(t, "+")
+	if parts[1] == "" {
+		return false
+	}
+	for _, c := range parts[1] {
+		if c < '0' || c > '9' {
+			return false
+		}
+	}
+	for _, p := range parts[2:] {
+		if p == "" || p[0] < 'A' || p[0] > 'Z' {
+			return false
+		}
+	}
+	return true
+}
+
+// a well-formed permission hint (without the '+'): A<40 hex>@<8 hex>
+func vC18WellFormedSig(p string) bool {
+	if len(p) != 50 || p[0] != 'A' || p[41] != '@' {
+		return false
+	}
+	for i, c := range p[1:] {
+		if i == 40 {
+			continue
+		}
+		if !((c >= '0' && c <= '9') || (c >= 'a' && c <= 'f')) {
+			return false
+		}
+	}
+	return true
+}
+
+// got is sent with each +A hint of a block locator turned into +R<id>-, nothing else changed.
+// A well-formed permission hint of a well-formed locator (position >= 1 of its line) MUST be rewritten;
+// for anything else that merely looks like it ("+A..." inside a malformed locator-like token, a
+// malformed "+A" hint) both the rewritten and the untouched form are accepted - the statement speaks
+// about permission hints +A<signature>@<expiry>, a stricter parser than the current regexp is as good.
 func vC18Rel(sent, got, id string, remote bool) bool {
 	if !remote {
 		return sent == got
@@ -247,18 +289,33 @@ func vC18Rel(sent, got, id string, remote bool) bool {
 			return false
 		}
 		for j := range st {
-			want := st[j]
-			if j >= 1 && vC18IsHex32(want) && len(want) > 32 && want[32] == '+' {
-				parts := strings.Split(want, "+")
-				for k := 1; k < len(parts); k++ {
-					if strings.HasPrefix(parts[k], "A") {
-						parts[k] = "R" + id + "-" + parts[k][1:]
+			if st[j] == gt[j] && !(j >= 1 && vC18WellFormedLocator(st[j])) {
+				continue // untouched, and nothing in it had to be rewritten
+			}
+			if !(j >= 1 && vC18IsHex32(st[j]) && len(st[j]) > 32 && st[j][32] == '+') {
+				return false // not locator-like: must be untouched
+			}
+			sp, gp := strings.Split(st[j], "+"), strings.Split(gt[j], "+")
+			if len(sp) != len(gp) {
+				return false
+			}
+			wf := vC18WellFormedLocator(st[j])
+			for k := range sp {
+				rewritten := "R" + id + "-" + strings.TrimPrefix(sp[k], "A")
+				switch {
+				case k >= 2 && wf && vC18WellFormedSig(sp[k]):
+					if gp[k] != rewritten {
+						return false
+					}
+				case k >= 1 && strings.HasPrefix(sp[k], "A"):
+					if gp[k] != rewritten && gp[k] != sp[k] {
+						return false
+					}
+				default:
+					if gp[k] != sp[k] {
+						return false
 					}
 				}
-				want = strings.Join(parts, "+")
-			}
-			if gt[j] != want {
-				return false
 			}
 		}
 	}
